@@ -5,9 +5,11 @@ package limrig
 
 import (
 	"fmt"
+	"github.com/kubewharf/kubegateway/pkg/zzverif/vsched"
 	"regexp"
 	"sort"
 	"strings"
+	"sync/atomic"
 	"time"
 
 	metav1 "k8s.io/apimachinery/pkg/apis/meta/v1"
@@ -28,11 +30,12 @@ import (
 const Me = "me"
 
 type Rig struct {
-	H       *limiter.VerifHandle
-	L       limiter.RateLimiter
-	GW      *gwfake.Clientset
-	Indexer cache.Indexer
-	Shards  int
+	H         *limiter.VerifHandle
+	L         limiter.RateLimiter
+	GW        *gwfake.Clientset
+	Indexer   cache.Indexer
+	Shards    int
+	writeBack bool
 }
 
 // New creates a limiter server with the given shard count and store kind ("local" or "k8s").
@@ -41,6 +44,11 @@ func New(shards int, store string) *Rig { return NewWithSyncPeriod(shards, store
 // NewWithSyncPeriod: store "k8s" with a non-zero period is the write-back mode (the limiter binary's default is 30 s);
 // the rig passes a period its run never reaches - flushes happen when the driver calls Flush on the store.
 func NewWithSyncPeriod(shards int, store string, period time.Duration) *Rig {
+	if period > 0 {
+		// (needs pkg/ratelimiter/store/k8s/cache_store.go in the check's INSTR list) the store's periodic flush loop is
+		// not started: wait.Until would run a first flush at once, concurrently with the driver
+		vsched.DropGoCallers = []string{"NewK8sCacheStore"}
+	}
 	gw := gwfake.NewSimpleClientset()
 	opts := options.RateLimitOptions{ShardingCount: shards, LimitStore: store, Identity: Me, K8sStoreSyncPeriod: period,
 		LeaderElectionConfiguration: componentbaseconfig.LeaderElectionConfiguration{ResourceLock: "leases", ResourceNamespace: "ns", ResourceName: "limiter",
@@ -49,10 +57,17 @@ func NewWithSyncPeriod(shards int, store string, period time.Duration) *Rig {
 	if err != nil {
 		panic(err)
 	}
-	return &Rig{H: h, L: l, GW: gw, Indexer: controller.VerifIndexer(h.Controller()), Shards: shards}
+	return &Rig{H: h, L: l, GW: gw, Indexer: controller.VerifIndexer(h.Controller()), Shards: shards, writeBack: store == "k8s" && period > 0}
 }
 
-func (r *Rig) Gain(shard int)             { elector.VerifStartLeading(r.H.Elector(), shard) }
+func (r *Rig) Gain(shard int) {
+	before := atomic.LoadInt64(&vsched.DroppedGo)
+	elector.VerifStartLeading(r.H.Elector(), shard)
+	if r.writeBack && r.H.Store(shard) != nil && atomic.LoadInt64(&vsched.DroppedGo) == before {
+		// the write-back store was created with its flush loop running: the run would be racy and non-deterministic
+		panic("limrig: the API-backed store's periodic flush loop was not dropped (is pkg/ratelimiter/store/k8s/cache_store.go in the check's INSTR list?)")
+	}
+}
 func (r *Rig) Lose(shard int)             { elector.VerifStopLeading(r.H.Elector(), shard) }
 func (r *Rig) Other(shard int, id string) { elector.VerifSetLeader(r.H.Elector(), shard, id) }
 func (r *Rig) Shard(upstream string) int  { return util.GetShardID(upstream, r.Shards) }
